@@ -555,7 +555,10 @@ def stepH? (fuel : Nat) (s : HState) : HOp → Option HState
               match entryRespell false h0 e key with
               | some h1 =>
                 match (match src with
-                  | none => (installAt fuel h1 e .unk).map (fun h' => { s with h := h' })
+                  | none =>
+                    match resolveRef { s with h := h1 } (r.member (.key nk)) with
+                    | some t => (installAt fuel h1 t .unk).map (fun h' => ({ s with h := h' } : HState))
+                    | none => none
                   | some sr => copyOntoH fuel { s with h := h1 } sr (r.member (.key nk))) with
                 | some s2 => (free s2.h kn).map (fun h' => { s2 with h := h' })
                 | none => none
